@@ -617,23 +617,32 @@ theorem rebal_repr (h : Heap) (c : Cell) (par : Nat) (t : Tree) (hc : CellAt c p
         have := hcell rfl
         simp [e2, this]
     unfold Map.rebal
-    simp only [Tree.rebal, Tree.slope, sP, hcellEq]
+    simp only [sP, hcellEq]
     simp only [RebalOk] at hok
+    -- the comparisons of the code (`slope > 1` / `slope >= 2` ...) are decided by case analysis, not by their syntax
     by_cases h1 : s > 1
-    · simp only [h1, if_true]
-      obtain ⟨li, lk, lv, lh, ls, ll, lr, e, hok1⟩ := hok.1 h1
+    · obtain ⟨li, lk, lv, lh, ls, ll, lr, e, hok1⟩ := hok.1 h1
       subst e
       obtain ⟨a, b⟩ := shiftr_repr h c par i k v hh s li lk lv lh ls ll lr r hc hpar hd hr0 hok1
-      exact ⟨a, trivial, b⟩
-    · simp only [h1, if_false]
-      by_cases h2 : s < -1
-      · simp only [h2, if_true]
-        obtain ⟨ri, rk, rv, rh, rs, rl, rr, e, hok2⟩ := hok.2 h2
+      have hm : Tree.rebal (node i k v hh s (node li lk lv lh ls ll lr) r) = Tree.shiftr (node i k v hh s (node li lk lv lh ls ll lr) r) := by
+        simp [Tree.rebal, Tree.slope, h1]
+      rw [hm]
+      repeat' split
+      all_goals first | exact ⟨a, rfl, b⟩ | (exfalso; omega)
+    · by_cases h2 : s < -1
+      · obtain ⟨ri, rk, rv, rh, rs, rl, rr, e, hok2⟩ := hok.2 h2
         subst e
         obtain ⟨a, b⟩ := shiftl_repr h c par i k v hh s ri rk rv rh rs rr rl l hc hpar hd hr0 hok2
-        exact ⟨a, trivial, b⟩
-      · simp only [h2, if_false]
-        exact ⟨hr0, trivial, frame_refl _ _ _⟩
+        have hm : Tree.rebal (node i k v hh s l (node ri rk rv rh rs rl rr)) = Tree.shiftl (node i k v hh s l (node ri rk rv rh rs rl rr)) := by
+          simp [Tree.rebal, Tree.slope, h1, h2]
+        rw [hm]
+        repeat' split
+        all_goals first | exact ⟨a, rfl, b⟩ | (exfalso; omega)
+      · have hm : Tree.rebal (node i k v hh s l r) = node i k v hh s l r := by
+          simp [Tree.rebal, Tree.slope, h1, h2]
+        rw [hm]
+        repeat' split
+        all_goals first | exact ⟨hr0, rfl, frame_refl _ _ _⟩ | (exfalso; omega)
 
 /-! ### the MultiMap.hpp copies of the six functions are the Map.hpp ones -/
 
